@@ -221,7 +221,7 @@ PROPS = {
     "C14": {
         "props": "TrackVerif.LT.PropsC14",
         "streams": [("LT", 500, 6000)],
-        "clauses": ["lt.returns", "lt.no_crash", "lt.no_leak", "lt.fault_reported", "lt.spurious_error", "lt.complete", "lt.prefix", "lt.write_count", "lt.protocol_model"],
+        "clauses": ["lt.returns", "lt.no_crash", "lt.no_leak", "lt.quiescent", "lt.marshal_error_reported", "lt.fault_reported", "lt.spurious_error", "lt.complete", "lt.prefix", "lt.write_count", "lt.protocol_model"],
         "rule": "real laptimer.Encoder.Encode against a writer failing from its k-th Write (k over 0..W+2 and none; every index of one two-buffer document in the corpus), documents 0..400 laps with 0..5000-byte "
                 "fields (a few bytes to ~100 pipe buffers), plain and gzip, GOMAXPROCS 1/2/4/16, Gosched in the writer; 5 s watchdog; goroutine count before/after; delivered bytes must be a prefix of / equal the fault-free output; "
                 "fault-free write count must equal the model's totalWrites and the model's outcome under a fair schedule must equal the implementation's",
